@@ -29,6 +29,7 @@ type c01Sig struct {
 }
 
 type c01Script struct {
+	Deferred bool       `json:"deferred,omitempty"` // sign everything first, verify afterwards (signatures kept as returned, not copied)
 	Priv    string      `json:"priv"`
 	Sigs    []c01Sig    `json:"sigs"`
 	Content rng.Content `json:"content"`
@@ -55,7 +56,7 @@ func (c01) Meta() core.Meta {
 		Components: map[string]string{"sm2.Sign/SignZa/SignHashed": "real", "sm2.Verify/VerifyZa/VerifyHashed": "real", "randomness source": "stub (simulated device)", "wire": "stub (fault-free in this property)",
 			"public key": "derived by sm2ref ([d]G); sm2ref also solves digests for target r/s/t"},
 		Assumptions: []string{"public key under which signatures must verify is [d]G computed by the reference model", "whether the signature is the standard's value is C02's question; a disagreement with sm2ref.Verify here is only an unclaimed observation"},
-		FaultKinds:  []string{"short", "stall", "cand:rejected"},
+		FaultKinds:  []string{"short", "stall", "cand:rejected", "deferred-verify"},
 		ProbeNames:  []string{"short-t", "short-r", "short-s", "key-short-encoding", "entry:Sign", "entry:SignZa", "entry:SignHashed"},
 		StepUnit:    "reader calls + sign/verify calls",
 	}
@@ -76,6 +77,7 @@ func (c01) Generate(idx int, r *core.Rand, tier string) core.Script {
 	}
 	s.Priv = hx(priv)
 	d := ref.Int(priv)
+	s.Deferred = w.Chance(1, 3)
 	nsig := w.Range(1, 6)
 	for i := 0; i < nsig; i++ {
 		for w.Chance(1, 6) {
@@ -87,13 +89,16 @@ func (c01) Generate(idx int, r *core.Rand, tier string) core.Script {
 		switch sig.Op {
 		case "SignHashed":
 			e := w.Bytes(32)
-			if w.Chance(3, 5) { // solve e for a short r, s or t
+			if ref.KeyValid(d) && w.Chance(1, 5) {
+				// the candidate before the accepted one is rejected by a solved-for rule
+				// (r=0, r+k=n, s=0): the retry must start from a clean state
+				k1 := randScalar(w)
+				e = solveE([]string{ref.RejR0, ref.RejRK, ref.RejS0}[w.Intn(3)], d, k1)
+				n := len(s.Content.Candidates)
+				s.Content.Candidates = append(s.Content.Candidates[:n-1], hx(ref.Pad32(k1)), s.Content.Candidates[n-1])
+			} else if w.Chance(3, 5) { // solve e for a short r, s or t
 				x1 := ref.MulG(k).X
-				small := ref.Int(w.Bytes(32))
-				small.Rsh(small, uint(8*w.Range(1, 3)))
-				if small.Sign() == 0 {
-					small.SetInt64(1)
-				}
+				small := smallValue(w)
 				rv := new(big.Int)
 				d1 := new(big.Int).Add(d, big.NewInt(1))
 				switch w.Intn(3) {
@@ -171,6 +176,44 @@ func (c01) Execute(sc core.Script, keep bool) *core.Result {
 	px, py := ref.Pad32(pub.X), ref.Pad32(pub.Y)
 	dev := rng.New(s.Content, s.Program, log)
 	var classes []string
+	type pending struct {
+		i      int
+		sg     c01Sig
+		rr, ss []byte
+		cl     string
+	}
+	var queue []pending
+	verify := func(i int, sg c01Sig, rr, ss []byte, cl string) bool {
+		var ok bool
+		var verr error
+		p, txt, _, _ := core.Catch(func() {
+			switch sg.Op {
+			case "SignHashed":
+				ok, verr = sm2.VerifyHashed(px, py, unhx(sg.E), rr, ss)
+			case "SignZa":
+				ok, verr = sm2.VerifyZa(px, py, unhx(sg.Za), unhx(sg.Msg), rr, ss)
+			case "Sign":
+				ok, verr = sm2.Verify(unhx(sg.ID), px, py, unhx(sg.Msg), rr, ss)
+			}
+		})
+		log.Add("verify#%d: panic=%v ok=%v err=%v", i, p, ok, verr != nil)
+		when := "immediately"
+		if s.Deferred {
+			when = "after-later-signing-calls"
+		}
+		if p {
+			res.Violation = &core.Violation{Class: "panic", Op: sg.Op, Role: "verifier", Param: cl, Detail: fmt.Sprintf("verifier panicked on the library's own signature r=%x s=%x: %s", rr, ss, txt)}
+			return false
+		}
+		if !ok || verr != nil {
+			res.Violation = &core.Violation{Class: "rejected-own-signature", Op: sg.Op, Role: "verifier", Param: cl + "/" + when, Detail: fmt.Sprintf("library signature r=%x s=%x under %s not accepted (verified %s): ok=%v err=%v", rr, ss, keyClass(priv), when, ok, verr)}
+			return false
+		}
+		if sg.Op == "SignHashed" && !ref.Verify(px, py, unhx(sg.E), rr, ss) {
+			res.Unclaimed = append(res.Unclaimed, "library accepts its own signature but sm2ref.Verify rejects it")
+		}
+		return true
+	}
 	for i, sg := range s.Sigs {
 		res.Probes["entry:"+sg.Op]++
 		var rr, ss []byte
@@ -222,28 +265,28 @@ func (c01) Execute(sc core.Script, keep bool) *core.Result {
 		if zr+zs+zt > 0 {
 			res.Nontrivial = true
 		}
-		// the wire delivers (pub, message, r, s) untouched; the verifier node checks
-		var ok bool
-		var verr error
-		p, txt, _, _ = core.Catch(func() {
-			switch sg.Op {
-			case "SignHashed":
-				ok, verr = sm2.VerifyHashed(px, py, unhx(sg.E), rr, ss)
-			case "SignZa":
-				ok, verr = sm2.VerifyZa(px, py, unhx(sg.Za), unhx(sg.Msg), rr, ss)
-			case "Sign":
-				ok, verr = sm2.Verify(unhx(sg.ID), px, py, unhx(sg.Msg), rr, ss)
+		// the wire delivers (pub, message, r, s) untouched; the verifier node checks,
+		// either right away or after the signer has gone on to sign the other messages
+		if s.Deferred {
+			queue = append(queue, pending{i, sg, rr, ss, cl})
+			continue
+		}
+		if !verify(i, sg, rr, ss, cl) {
+			log.Add("VIOLATION %s", res.Violation.Detail)
+			for k, v := range dev.Fired {
+				res.Faults[k] += v
 			}
-		})
-		log.Add("verify#%d: panic=%v ok=%v err=%v", i, p, ok, verr != nil)
-		if p {
-			return vio("panic", "verifier", cl, fmt.Sprintf("verifier panicked on the library's own signature r=%x s=%x t=%x: %s", rr, ss, t, txt))
+			return res
 		}
-		if !ok || verr != nil {
-			return vio("rejected-own-signature", "verifier", cl, fmt.Sprintf("library signature r=%x s=%x (t=%x) under %s not accepted: ok=%v err=%v", rr, ss, t, kc, ok, verr))
-		}
-		if sg.Op == "SignHashed" && !ref.Verify(px, py, unhx(sg.E), rr, ss) {
-			res.Unclaimed = append(res.Unclaimed, "library accepts its own signature but sm2ref.Verify rejects it")
+	}
+	for _, q := range queue {
+		res.Faults["deferred-verify"]++
+		if !verify(q.i, q.sg, q.rr, q.ss, q.cl) {
+			log.Add("VIOLATION %s", res.Violation.Detail)
+			for k, v := range dev.Fired {
+				res.Faults[k] += v
+			}
+			return res
 		}
 	}
 	for k, v := range dev.Fired {
@@ -297,6 +340,11 @@ func (c01) Shrinks(sc core.Script) []core.Script {
 		out = append(out, c)
 	}
 	for i, sg := range s.Sigs {
+		if sg.Msg != "" && i == 0 && s.Deferred {
+			c := cp()
+			c.Deferred = false
+			out = append(out, c)
+		}
 		if sg.Msg != "" {
 			c := cp()
 			c.Sigs[i].Msg = ""
